@@ -310,7 +310,7 @@ def install(sim):
 
 
 MODES = ['memory', 'file', 'file', 'user', 'fork']
-EXTRA = [('subc', 14), ('setver', 2), ('lag', 3), ('restart', 5), ('kill', 2), ('killmid', 4), ('killcompact', 2), ('opengate', 4)]
+EXTRA = [('subc', 14), ('setver', 2), ('lag', 3), ('restart', 5), ('kill', 2), ('killmid', 4), ('killcompact', 2), ('opengate', 4), ('compactrecv', 5), ('bigstate', 2)]
 
 
 def strategy(tier):
@@ -394,6 +394,29 @@ def run_case(case):
         os.remove(GATE['path'])
         return ()
 
+    def op_compactrecv(a, b, c):
+        # a node that is in the middle of receiving a snapshot compacts its own log (its own dump write overlaps the transfer)
+        recv = [n for n in sim.live() if sim.nodes[n]._SyncObj__serializer._Serializer__incomingTransmissionFile is not None]
+        if not recv:
+            return False
+        name = recv[a % len(recv)]
+        sim.nodes[name].forceLogCompaction()
+        sim.tick_node(name, 0.02)
+        sim.compact_during_transfer = True
+        return (name,)
+
+    def op_bigstate(a, b, c):
+        # make snapshots larger than one file buffer (8 KiB) so that partially flushed writes matter
+        live = sim.live()
+        if not live:
+            return False
+        name = live[a % len(live)]
+        core.CLOCK.active = name
+        sim.nodes[name].d.set(100 + b % 2, bytes(range(256)) * (20 + c % 30))
+        return (name,)
+
+    sim.compact_during_transfer = False
+    sim.op_compactrecv, sim.op_bigstate = op_compactrecv, op_bigstate
     sim.op_subc, sim.op_setver, sim.op_lag, sim.op_opengate = op_subc, op_setver, op_lag, op_opengate
     orig_restart = sim.op_restart
 
@@ -448,6 +471,8 @@ def run_case(case):
             classes.add('applied-while-snapshot-in-progress')
         if sim.transfer_interrupted:
             classes.add('transfer-restarted')
+        if sim.compact_during_transfer:
+            classes.add('own-compaction-during-incoming-transfer')
         if sim.restored_from_dump:
             classes.add('restored-from-dump')
         if sim.counters.get('dump_files_checked'):
